@@ -12,19 +12,26 @@ import (
 )
 
 type client struct {
-	endpoint       net.EndPoint
-	messageID      uint32
-	messageIDMutex sync.Mutex
-	state          map[string]int
-	stateMutex     sync.Mutex
-	capability     CapabilityMap
+	endpoint   net.EndPoint
+	state      map[string]int
+	stateMutex sync.Mutex
+	capability CapabilityMap
 }
 
+// The message ids are drawn from one counter for the whole process
+// (as libqi does): several clients can share one connection (the
+// proxies of a session, the references to an object hosted by a
+// client) and the answer to a call is recognised by its id.
+var (
+	messageID      uint32 = 1
+	messageIDMutex sync.Mutex
+)
+
 func (c *client) nextMessageID() uint32 {
-	c.messageIDMutex.Lock()
-	defer c.messageIDMutex.Unlock()
-	c.messageID += 2
-	return c.messageID
+	messageIDMutex.Lock()
+	defer messageIDMutex.Unlock()
+	messageID += 2
+	return messageID
 }
 
 func (c *client) newMessage(serviceID uint32, objectID uint32,
@@ -216,7 +223,6 @@ func (c *client) Channel() Channel {
 func NewClient(channel Channel) Client {
 	return &client{
 		endpoint:   channel.EndPoint(),
-		messageID:  1,
 		state:      map[string]int{},
 		capability: channel.Cap(),
 	}
